@@ -338,6 +338,30 @@ def templates_sweep(tier, rng, wd, cases, stats):
     stats["templates"] = st
 
 
+def prefixes_sweep(tier, rng, wd, cases, stats):
+    """Modifier prefixes x positions x forms enumerated by TLC (spec/CfgPrefixes.tla)."""
+    d = workdir("c03/pfx")
+    with open(os.path.join(d, "CfgPrefixes.cfg"), "w") as f:
+        f.write("INIT Init\nNEXT Next\nINVARIANT Emit\nCHECK_DEADLOCK FALSE\n")
+    r = kv.run_tlc(d, "CfgPrefixes", workers=4, timeout=900, heap="4g")
+    tlc_ok(r, "CfgPrefixes")
+    gf = os.path.join(d, "pfx.ndjson")
+    m = kv.extract_prints(r["out"], "PFX", gf)
+    if m != r["distinct"]:
+        raise ToolError("CfgPrefixes: %d PFX lines for %s states" % (m, r["distinct"]))
+    os.remove(r["out"])
+    k = 0
+    pos = Counter()
+    for line in open(gf):
+        g = json.loads(line)
+        text, files = pf.prefix_text(g["pre"], g["pos"], g["form"])
+        if cases.add("prefixes:" + g["pos"], "".join(g["pre"]) + ":" + g["form"], text, files):
+            k += 1
+            pos[g["pos"]] += 1
+    os.remove(gf)
+    stats["prefixes"] = {"cases": m, "texts": k, "positions": len(pos), "states": r["distinct"], "wall_s": round(r["wall_s"], 1)}
+
+
 HEAVY_MS = 60000      # watchdog of the very large boundary texts (60000 layers take several seconds in a dev build)
 
 
@@ -530,6 +554,8 @@ def run(tier, seed):
     log("[c03] + name-resolution graphs: %d texts (%.0fs)" % (len(cases.items), time.time() - t0))
     capcases = caps_sweep(tier, rng, wd, cases, stats)
     log("[c03] + capacity boundaries: %d texts (%.0fs)" % (len(cases.items), time.time() - t0))
+    prefixes_sweep(tier, rng, wd, cases, stats)
+    log("[c03] + modifier prefixes: %d texts (%.0fs)" % (len(cases.items), time.time() - t0))
     byte_level(tier, rng, cases, texts, stats)
     as_includes(tier, rng, cases, stats)
     on_disk(tier, rng, cases, wd, stats)
@@ -639,11 +665,11 @@ def run(tier, seed):
                 continue
             msgs[m[:60]] += 1
         nontrivial += 1
-    bykind = Counter(k.split(":")[0] if k.startswith(("bytes", "grammar", "as-include", "file", "lexer", "refs", "templates", "caps")) else "structure:" + k
+    bykind = Counter(k.split(":")[0] if k.startswith(("bytes", "grammar", "as-include", "file", "lexer", "refs", "templates", "caps", "prefixes")) else "structure:" + k
                      for k, _ in cases.meta)
     samples = []
     want = ["sentinel", "splice", "arity", "number-boundary", "name-self-referential", "grammar:action", "bytes:openend", "delete+arity",
-            "templates:lit", "caps:seq-overlap", "caps:switch-depth"]
+            "templates:lit", "caps:seq-overlap", "caps:switch-depth", "prefixes:defseq-first", "prefixes:override-in"]
     for w in want:
         for i, (k, o) in enumerate(cases.meta):
             if k == w and len(cases.items[i]["text"]) < 400:
@@ -668,7 +694,10 @@ def run(tier, seed):
                 "mutual / forward references, nested, used or unused); the capacity boundaries of spec/CfgCaps.tla (every documented or "
                 "announced capacity at L-1, L, L+1, L+2 in every shape that reaches it: switch opcode list with 1- and 2-opcode last "
                 "items and nested lists closing at the end, switch depth, key-recency, chord-group keys, virtual keys, O-(..) lists, "
-                "local key codes, defsrc size, distances, list widths 255 / 4095; thorough: layers, chord groups, widths 65535); byte-level mutations (truncate, bit flip, multi-byte insert, "
+                "local key codes, defsrc size, distances, list widths 255 / 4095; thorough: layers, chord groups, widths 65535); the modifier "
+                "prefixes of spec/CfgPrefixes.tla (every prefix and ordered pair of prefixes, ASCII and unicode spellings, x every position "
+                "with its own prefix handling - action, multi, tap-hold, macro, defseq key list, defoverrides, unmod, defzippy, chords, "
+                "switch, alias / variable, key-name lists - x {key, group, bare prefix}); byte-level mutations (truncate, bit flip, multi-byte insert, "
                 "unterminated string/comment openers, slice delete/duplicate, control characters) of every seed and of included files; "
                 "a sample re-run as an included file and through new_from_file with on-disk include sets. Each text is loaded by "
                 "new_from_str/new_from_file and its diagnostic rendered (Debug of the miette report + graphical handler) in a worker "
